@@ -145,6 +145,11 @@ def run(ctx):
         fqe_case(ctx, 5000 + k_, norb, na, nb, h1, numpy.zeros((norb,) * 4), "davidson_diagonalization", 1, None, False, False)
 
 
+# repeat solves spent on classifying skipped roots, per run (a tree that skips roots systematically must not turn the
+# check into a soak: when the budget is used up the remaining cases are reported as they are)
+REPEATS = {"left": 80}
+
+
 def cluster_unresolved(exact, got, nroots, res, nerr):
     """True when the only defect of a returned set is that a Ritz value sits strictly inside a cluster of
     near-degenerate exact eigenvalues (spread < 1e-3) instead of on its lowest member: normalised vectors, small
@@ -258,14 +263,17 @@ def fqe_case(ctx, case, norb, na, nb, h1, h2, api, nroots, guess_data, cplx_h, c
             # for these guess vectors: the recorded finding) or systematic (no guess reaches the skipped state)?  Repeat
             # the same problem with other guess vectors.
             reached = 0
-            for rep_ in range(1, 4):
-                gr = numpy.random.RandomState(npseed0 + rep_)
+            for rep_ in range(1, 41):
+                if reached or REPEATS["left"] <= 0:
+                    break           # one guess set that reaches the skipped root settles it (1 in 5 do, measured)
+                REPEATS["left"] -= 1
+                gr = numpy.random.RandomState((npseed0 + 7919 * rep_) % (2 ** 31))
                 gd = None
                 if guess_data is not None:
                     gd = [(gr.randn(*numpy.shape(c)) + (1j * gr.randn(*numpy.shape(c)) if cplx_g else 0)).astype(numpy.complex128)
                           for c in guess_data]
                 try:
-                    ew2, _ = solve(gd, npseed0 + rep_)
+                    ew2, _ = solve(gd, (npseed0 + 7919 * rep_) % (2 ** 31))
                     if float(numpy.abs(numpy.sort(numpy.real(numpy.asarray(ew2)[:nroots])) - exact[:nroots]).max()) <= 1e-6:
                         reached += 1
                 except Exception:
